@@ -1,11 +1,9 @@
 (* Conversions between the wire format (Sx) and the model's data types. *)
 From Coq Require Import List NArith Bool.
 Import ListNotations.
-Require Import Sx Spec.
+Require Import Opt Sx Spec.
 Open Scope N_scope.
 
-Definition bindo {X Y} (o : option X) (f : X -> option Y) : option Y := match o with Some x => f x | None => None end.
-Notation "'do' x <- e ; k" := (bindo e (fun x => k)) (at level 200, x name, e at level 100, k at level 200).
 
 (* ---- input side ---- *)
 Definition loc_of_sx (s : sx) : option loc :=
